@@ -175,11 +175,12 @@ class CondAdapter(Adapter):
         k = op[0]
         c = self.cond
         if k == "acquire":
-            return c.acquire()
+            return c.__aenter__() if "cm" in op[1:] else c.acquire()
         if k == "acquire_nowait":
             return c.acquire_nowait()
         if k == "release":
-            return c.release()
+            # `async with cond:` leaves through __aexit__, which must do what release() does
+            return c.__aexit__(None, None, None) if "cm" in op[1:] else c.release()
         if k == "wait":
             return c.wait()
         if k == "notify":
@@ -284,6 +285,10 @@ def gen_cond_case(rng: random.Random, max_waiters: int) -> dict:
     nall = len(roles)
     mk = {"w": _waiter_script, "n": _notifier_script, "c": _canceller_script, "m": _misuse_script}
     scripts = [mk[r](rng, nw, nall, t) for t, r in enumerate(roles)]
+    if rng.random() < 0.4:
+        # the `async with cond:` idiom: enter/leave through __aenter__/__aexit__
+        scripts = [[(op[:1] + ["cm"] + op[1:]) if op[0] in ("acquire", "release") else op for op in sc]
+                   for sc in scripts]
     return {"kind": "cond", "cfg": {"fast": rng.random() < 0.3}, "scripts": scripts}
 
 
@@ -388,6 +393,11 @@ class QueueAutomaton:
                 else:
                     self.expect[t] = "refuse"
             return None
+        if kind == "cancel":
+            st = self.w.get(t)
+            if st is not None and out == "native":
+                st["native_seen"] = True
+            return None
         if kind in ("fc", "mc"):
             st = self.w.get(t)
             if st is not None:
@@ -395,7 +405,8 @@ class QueueAutomaton:
                     if st["notified"] and not st["cancel_seen"]:
                         self.stats["notify_then_cancel_same_cycle"] += 1
                     st["cancel_seen"] = True
-                else:
+                elif st.get("native_seen"):
+                    # only a native Task.cancel() can interrupt the shielded re-acquire (DESIGN section 4)
                     st["reacq_cancel"] = True
             return None
         if kind == "step":
